@@ -9,6 +9,7 @@ import TnVerif.Model.Tools
 import TnVerif.Model.Deriv
 import TnVerif.Model.Automata
 import TnVerif.Model.Anova
+import TnVerif.Model.Dual
 /-
   Line-protocol driver (DESIGN §2.6).  One request per line on stdin, one answer per line on
   stdout.  Tokens are separated by blanks; numbers are integers or `p/q`.
@@ -19,7 +20,9 @@ import TnVerif.Model.Anova
 -/
 open TN
 
-abbrev Q := Rat
+/-- scalars of the driver: dual rationals `v~d` (a plain rational is `v~0`), so that every command also
+    propagates first-order tangents (C07) -/
+abbrev Q := TN.Dual Rat
 
 structure P where
   toks : Array String
@@ -50,13 +53,22 @@ def pInt : PM Int := do
   | some n => return n
   | none => throw s!"int expected: {t}"
 
-def parseQ (t : String) : Option Q :=
+def parseRat (t : String) : Option Rat :=
   match t.splitOn "/" with
-  | [a] => a.toInt?.map fun n => (n : Q)
+  | [a] => a.toInt?.map fun n => (n : Rat)
   | [a, b] => do
       let n ← a.toInt?
       let d ← b.toNat?
       if d = 0 then none else some (mkRat n d)
+  | _ => none
+
+def parseQ (t : String) : Option Q :=
+  match t.splitOn "~" with
+  | [a] => (parseRat a).map fun v => ⟨v, 0⟩
+  | [a, b] => do
+      let v ← parseRat a
+      let d ← parseRat b
+      some ⟨v, d⟩
   | _ => none
 
 def pQ : PM Q := do
@@ -149,8 +161,11 @@ def showErr : IdxErr → String
   | .runBroken => "runBroken" | .lenMismatch => "lenMismatch" | .badStep => "badStep"
 
 /-! printing -/
-def showQ (q : Q) : String :=
+def showRat (q : Rat) : String :=
   if q.den == 1 then toString q.num else s!"{q.num}/{q.den}"
+
+def showQ (q : Q) : String :=
+  if q.d == 0 then showRat q.v else showRat q.v ++ "~" ++ showRat q.d
 
 def showCore : Core Q → String
   | .tt r0 s r1 f => Id.run do
